@@ -34,7 +34,7 @@ type c19Outcome struct {
 	Injected  *Call               `json:"injected"` // the call that was made to fail
 	Pre       map[string]string   `json:"pre"`      // consumer -> digest of its keys before the block
 	Post      map[string]string   `json:"post"`
-	PreKeys   map[string][]string `json:"pre_keys"`  // consumer -> "prefix:hash" per key (for allowed-difference rules)
+	PreKeys   map[string][]string `json:"pre_keys"` // consumer -> "prefix:hash" per key (for allowed-difference rules)
 	PostKeys  map[string][]string `json:"post_keys"`
 	Phases    map[string]string   `json:"phases"`
 	Clients   int                 `json:"clients"`
